@@ -4,7 +4,7 @@ r=$1; shift
 n=0
 for p in "$@"; do
   (SRC=/tmp/wt$r-$p/DEMO VERIF_TIMEOUT=300 /verif/tools/seed_eval.sh $p $p-$r > /tmp/r$r-$p.out 2>&1) &
-  n=$((n+1)); if [ $((n%5)) -eq 0 ]; then wait; fi
+  n=$((n+1)); if [ $((n%${PAR:-5})) -eq 0 ]; then wait; fi
 done
 wait
 for p in "$@"; do echo "== $p"; tail -n 6 /tmp/r$r-$p.out | cut -c1-330; done
